@@ -17,6 +17,10 @@ Violations(r) ==
     CASE r.op = "enc" -> IF EncodePermitted(r.in, Obs(r)) THEN {} ELSE {"C18.encode"}
       [] r.op = "dec" -> IF DecodePermitted(r.in, Obs(r)) THEN {} ELSE
                             IF HasForeign(r.in) THEN {"C18.reject"} ELSE {"C18.decode"}
+      [] r.op = "sweep" -> IF SweepPermitted([dir |-> r.dir, k |-> r.k, x |-> r.x, y |-> r.y, bad |-> r.bad,
+                                              seen |-> {r.seen[i] : i \in 1..Len(r.seen)},
+                                              lens |-> {r.lens[i] : i \in 1..Len(r.lens)}])
+                           THEN {} ELSE {IF r.dir = "enc" THEN "C18.encode" ELSE "C18.decode"}
       [] OTHER        -> {"C18.unknown_event"}
 
 Init == l = 1 /\ nfail = 0
